@@ -139,6 +139,7 @@ class Run:
         self.extra = {}
         self.rule = ''
         self.known = load_known(pid)
+        shutil.rmtree(os.path.join(VERIF, 'replays', pid), ignore_errors=True)     # replays of earlier runs are stale
 
     # ---------------------------------------------------------------- TLC
     def tlc(self, module, cfg, env=None, workers=None, simulate=None, depth=None,
@@ -257,7 +258,7 @@ class Run:
                     return
         sig = '%s:%s' % (clause, tag)
         for fid, k in self.known.items():
-            if k.get('status') == 'known' and k.get('signature') == sig:
+            if k.get('status') == 'known' and (k.get('signature') == sig or sig in k.get('signatures', ())):
                 self.known_hits[fid] = self.known_hits.get(fid, 0) + 1
                 return
         self.nviol += 1
